@@ -69,7 +69,7 @@ type c04Program struct {
 }
 
 var c04Fronts = []string{"info", "log", "check", "sugarw", "sugarf", "sugarln", "sugar", "child-with", "child-named", "child-lazy", "stdlog", "zapio",
-	"reflect", "reflect", "errors", "object", "child-reflect", "shared-reflect", "shared-reflect"}
+	"reflect", "reflect", "errors", "object", "child-reflect", "shared-reflect", "shared-reflect", "reflect-fail", "reflect-fail"}
 
 // c04Obj is a nested marshaler carrying its goroutine and a padding.
 type c04Obj struct {
@@ -276,6 +276,9 @@ func c04Run(t interface{ Fatalf(string, ...any) }, p *c04Program) (alternations 
 				case "shared-reflect":
 					// Named does not clone the core: every goroutine encodes through the SAME context encoder (which holds a reflected field)
 					shared.Named(fmt.Sprintf("g%d", g)).Info(tok, zap.Int("g", g), zap.Reflect("rv", map[string]any{"rg": g, "rp": strings.Repeat(string(rune('a'+g%26)), o.Pad)}))
+				case "reflect-fail":
+					// the only (hence last) reflected value of the entry cannot be encoded: the line still carries the token and a "badError" field
+					mine.Info(tok, zap.Int("seq", seq), zap.Reflect("bad", make(chan int)))
 				case "child-reflect":
 					mine.With(zap.Reflect("cr", map[string]any{"rg": g})).Warn(tok, zap.Reflect("rv", []any{map[string]int{"rg": g}}))
 				case "errors":
